@@ -134,7 +134,7 @@ class ModuleInfo:
 
 
 class Program:
-    def __init__(self, root, extra_client_dirs=()):
+    def __init__(self, root, extra_client_dirs=(), min_modules=10):
         self.root = os.path.abspath(root)
         self.modules = {}
         self.functions = {}
@@ -145,7 +145,7 @@ class Program:
         for fn in sorted(os.listdir(pkgdir)):
             if fn.endswith(".py"):
                 self._load(os.path.join(pkgdir, fn))
-        if len(self.modules) < 10:
+        if len(self.modules) < min_modules:
             raise AnalysisError(f"only {len(self.modules)} modules parsed below {pkgdir}")
         self._resolve_bases()
 
